@@ -73,3 +73,8 @@ pub open spec fn logs_extend(a: World, b: World) -> bool {
 
 // result of MDK::is_leaf_node_admin for the receiver's own leaf (decided in unit group_ops) — uninterpreted here
 pub uninterp spec fn leaf_is_admin(w: World, v: MlsView) -> bool;
+
+// C02/C03: the outer-layer lookback window is the past epochs [cur - L, cur - 1], at most L of them
+pub open spec fn window_len(cur: u64, lookback: u64) -> int {
+    if cur == 0 || lookback == 0 { 0 } else if lookback <= cur { lookback as int } else { cur as int }
+}
